@@ -209,6 +209,9 @@ func (g *G) tryVsym(fn *ssa.Function, args []Value) (Value, bool) {
 	case "vsymSchedBound":
 		g.m.setPreemptBound(g.argInt(args[0]))
 		return nil, true
+	case "vsymSchedKinds":
+		g.m.setSchedKinds(g.argStr(args[0]))
+		return nil, true
 	case "vsymRaceDetect":
 		g.m.enableRace()
 		return nil, true
